@@ -737,6 +737,20 @@ class Interp:
         return VPy(v)
 
     def ex_JoinedStr(self, e):
+        if getattr(self.c, "concrete_fstrings", False):
+            # text built from concrete pieces (contracts that track emitted text with placeholders)
+            out = []
+            for part in e.values:
+                if isinstance(part, ast.Constant):
+                    out.append(str(part.value))
+                elif isinstance(part, ast.FormattedValue) and part.format_spec is None and part.conversion == -1:
+                    v = self.ctx.deref(self.eval(part.value))
+                    if not (isinstance(v, VPy) and isinstance(v.py, str)):
+                        self.unsupported(e, "f-string over %r" % (v,))
+                    out.append(v.py)
+                else:
+                    self.unsupported(e, "f-string format spec")
+            return VPy("".join(out))
         return VPy("<fstring>")
 
     def ex_Name(self, e):
@@ -1042,6 +1056,9 @@ class Interp:
             return z3.Or(*tests) if tests else z3.BoolVal(False)
         if hasattr(c, "contains"):
             return c.contains(self, x)
+        xv = ctx.deref(x)
+        if isinstance(c, VPy) and isinstance(c.py, str) and isinstance(xv, VPy) and isinstance(xv.py, str):
+            return z3.BoolVal(xv.py in c.py)          # substring test on concrete text
         self.unsupported(node, "membership in %r" % (c,))
 
     def ex_BinOp(self, e):
@@ -1157,6 +1174,9 @@ class Interp:
                     return VExc(f.name, args)
                 self.unsupported(e, "constructor of %s" % f.name)
             return f.construct(ctx, self, args, kwargs)
+        fd = ctx.deref(f)
+        if hasattr(fd, "call"):
+            return fd.call(ctx, self, args, kwargs)       # a contract-defined callable object
         self.unsupported(e, "call of %r" % (f,))
 
     def isinstance_(self, e):
